@@ -130,6 +130,11 @@ type renameOnCloseFile struct {
 	tempPath  string
 	finalPath string
 	published bool
+	// discarded is set once Abort has removed the ".tmp" file and the
+	// reservation: from then on the names no longer belong to this writer (a
+	// later CreateFile may have reserved them again), so a repeated Abort must
+	// not remove them a second time.
+	discarded bool
 }
 
 func (f *renameOnCloseFile) Write(p []byte) (int, error) {
@@ -168,11 +173,14 @@ func (f *renameOnCloseFile) Abort() error {
 	// no information here.
 	f.file.Close()
 	var errs []error
-	if err := os.Remove(f.tempPath); err != nil && !os.IsNotExist(err) {
-		errs = append(errs, err)
-	}
-	if err := os.Remove(f.finalPath); err != nil && !os.IsNotExist(err) {
-		errs = append(errs, err)
+	if !f.discarded {
+		if err := os.Remove(f.tempPath); err != nil && !os.IsNotExist(err) {
+			errs = append(errs, err)
+		}
+		if err := os.Remove(f.finalPath); err != nil && !os.IsNotExist(err) {
+			errs = append(errs, err)
+		}
+		f.discarded = len(errs) == 0
 	}
 	// A failed Close may already have renamed (and even fsynced) a complete
 	// file into place; make its removal durable too, or a power loss brings
